@@ -44,7 +44,46 @@ type Resp struct {
 	Header  http.Header
 	Body    []byte
 	Trailer http.Header
+	// Tunnel: the backend's side of an upgraded connection (Status 101): the response body is this read-write-closer,
+	// which is what httputil.ReverseProxy asks of a RoundTripper that accepts a protocol upgrade.
+	Tunnel io.ReadWriteCloser
 }
+
+// EchoTunnel is a backend side of an upgraded connection that sends back what it is sent, prefixed with "echo:".
+type EchoTunnel struct {
+	ch     chan []byte
+	closed chan struct{}
+	once   sync.Once
+	rest   []byte
+}
+
+func NewEchoTunnel() *EchoTunnel {
+	return &EchoTunnel{ch: make(chan []byte, 16), closed: make(chan struct{})}
+}
+
+func (e *EchoTunnel) Write(b []byte) (int, error) {
+	select {
+	case <-e.closed:
+		return 0, io.ErrClosedPipe
+	case e.ch <- append([]byte("echo:"), b...):
+		return len(b), nil
+	}
+}
+
+func (e *EchoTunnel) Read(b []byte) (int, error) {
+	if len(e.rest) == 0 {
+		select {
+		case <-e.closed:
+			return 0, io.EOF
+		case e.rest = <-e.ch:
+		}
+	}
+	n := copy(b, e.rest)
+	e.rest = e.rest[n:]
+	return n, nil
+}
+
+func (e *EchoTunnel) Close() error { e.once.Do(func() { close(e.closed) }); return nil }
 
 // RecBackend is an http.RoundTripper that records every request completely and
 // answers with a scripted response. Used as httputil.ReverseProxy.Transport.
@@ -100,6 +139,10 @@ func (b *RecBackend) RoundTrip(req *http.Request) (*http.Response, error) {
 	if len(rs.Trailer) > 0 {
 		resp.Trailer = rs.Trailer.Clone()
 		resp.ContentLength = -1
+	}
+	if rs.Tunnel != nil {
+		resp.Body = rs.Tunnel
+		resp.ContentLength = 0
 	}
 	return resp, nil
 }
